@@ -17,7 +17,7 @@ use std::sync::{Arc, Mutex};
 pub static SPEC: Spec = Spec {
     id: "C15",
     level: "exploration",
-    fixed_cases: |t| N_DFS + t.pick(0, 8),
+    fixed_cases: |t| N_DFS + N_FAIR + t.pick(0, 8),
     random_secs: |t| t.pick(14, 240),
     random_cap: |t| t.pick(200_000, 5_000_000),
     run_case,
@@ -39,14 +39,19 @@ pub static SPEC: Spec = Spec {
         "calls:missing_nodes",
         "calls:clear",
         "threaded_runs",
+        "fair_lock_schedules",
+        "fair_lock_waits",
     ],
-    rule: "a case = one configuration (2-4 tasks x 1-4 calls from {append, append_batch, get, has, info, create_proof, missing_nodes, clear through the public lock} on a shared writer, or {verify_and_apply_proof of pre-generated honest proofs, get, has, info, missing_nodes} on a shared replica) run under many schedules of a deterministic single-threaded executor over a backend that suspends at every storage operation; preemption points: before every call, every storage operation, every contended lock acquisition; each task records call and return events at the client boundary from one logical clock; oracle: the history must be linearizable against the plain (unshared) Hypercore as sequential specification - some total order respecting real-time precedence, replayed on a fresh plain core built from the same seed and prelude, must reproduce every recorded result (return order tried first, then memoised backtracking) - plus closed-form checks (append outcomes distinct and gap-free in length and byte length, every task's tagged blocks readable at the indices implied by its outcome, every get result is exactly one appended block, info pairs existed); all schedules (DFS) for the smallest configurations, seeded-random / PCT schedules otherwise; evaluations = schedules; distinct = (configuration, choice-sequence hash)",
+    rule: "a case = one configuration (2-4 tasks x 1-4 calls from {append, append_batch, get, has, info, create_proof, missing_nodes, clear through the public lock} on a shared writer, or {verify_and_apply_proof of pre-generated honest proofs, get, has, info, missing_nodes} on a shared replica) run under many schedules of a deterministic single-threaded executor over a backend that suspends at every storage operation; preemption points: before every call, every storage operation, every contended lock acquisition, and - in the fair-lock schedules, where enough wall-clock time passes for async_lock's anti-starvation hand-over to engage - every lock acquisition while another task waits; each task records call and return events at the client boundary from one logical clock; oracle: the history must be linearizable against the plain (unshared) Hypercore as sequential specification - some total order respecting real-time precedence, replayed on a fresh plain core built from the same seed and prelude, must reproduce every recorded result (return order tried first, then memoised backtracking) - plus closed-form checks (append outcomes distinct and gap-free in length and byte length, every task's tagged blocks readable at the indices implied by its outcome, every get result is exactly one appended block, info pairs existed); all schedules (DFS) for the smallest configurations, seeded-random / PCT schedules otherwise; evaluations = schedules; distinct = (configuration, choice-sequence hash)",
     assumptions: &["schedules are those a cooperative executor can produce at the listed preemption points (plus OS schedules in the threaded sanitizer lanes), not all interleavings of machine instructions"],
     exhaustive_note: "all schedules (exhaustive DFS, cap not hit) for 2 tasks x <= 2 calls and 3 tasks x 1 call configurations",
     hang_secs: 240,
 };
 
 const N_DFS: u64 = 24;
+/// fixed cases run in fair-lock mode: the N_DFS configurations again plus N_FAIR_EXTRA directed ones
+const N_FAIR_EXTRA: u64 = 8;
+const N_FAIR: u64 = N_DFS + N_FAIR_EXTRA;
 
 #[derive(Clone, Debug, PartialEq)]
 pub enum Call {
@@ -764,12 +769,66 @@ fn dfs_config(id: u64) -> Config {
     }
 }
 
+/// Directed configurations for the fair-lock schedules: calls whose effects would be split if the
+/// lock were released in mid-call, together with observers.
+fn fair_config(k: u64) -> Config {
+    let a = |t: u32| Call::Append(t, 5);
+    let w = |tasks: Vec<Vec<Call>>| Config { replica: false, key_seed: 15_500 + k, prelude: 2, replica_upgraded: 0, tasks };
+    let rp = |tasks: Vec<Vec<Call>>| Config { replica: true, key_seed: 15_500 + k, prelude: 4, replica_upgraded: 0, tasks };
+    match k {
+        0 => w(vec![vec![Call::Batch(vec![(1, 4), (2, 4), (3, 4)])], vec![a(4)], vec![Call::Info, Call::Info, Call::Info]]),
+        1 => w(vec![vec![Call::Batch(vec![(1, 4), (2, 4)])], vec![Call::Batch(vec![(3, 4), (4, 4), (5, 4)])], vec![Call::Has(3), Call::Info, Call::Has(4), Call::Get(3)]]),
+        2 => rp(vec![vec![Call::Apply(0)], vec![Call::Apply(4)], vec![Call::Info, Call::Has(3), Call::Info]]),
+        3 => rp(vec![vec![Call::Apply(4), Call::Apply(1)], vec![Call::Apply(5), Call::Apply(2)]]),
+        4 => w(vec![vec![a(1), a(2)], vec![Call::Batch(vec![(3, 4), (4, 4)]), Call::Info], vec![Call::Get(3), Call::Info, Call::Has(4)]]),
+        5 => w(vec![vec![Call::Clear(0, 2)], vec![a(1)], vec![Call::Info, Call::Has(0), Call::Get(1)]]),
+        6 => rp(vec![vec![Call::Apply(5)], vec![Call::Apply(0)], vec![Call::Apply(4)], vec![Call::Get(2), Call::Get(3), Call::Get(0)]]),
+        _ => w(vec![vec![Call::Batch(vec![(1, 4), (2, 4), (3, 4), (4, 4)])], vec![a(5)], vec![a(6)], vec![Call::Info, Call::Has(5), Call::Info, Call::Has(3)]]),
+    }
+}
+
+/// One schedule in fair-lock mode (see sched.rs).
+fn run_schedule_fair(cfg: &Config, chooser: &mut dyn Chooser) -> Result<RunOut, String> {
+    sched::FAIR_LOCK_US.store(600, std::sync::atomic::Ordering::Relaxed);
+    let out = run_schedule(cfg, chooser);
+    sched::FAIR_LOCK_US.store(0, std::sync::atomic::Ordering::Relaxed);
+    out
+}
+
+fn fair_schedules(ctx: &mut Ctx, cfg: &Config, r: &mut Rng, n: u64) -> bool {
+    for k in 0..n {
+        let mut ch = PctChooser::new(r.fork(0xFA1 + k), cfg.tasks.len(), 3, 120);
+        let mut out = match run_schedule_fair(cfg, &mut ch) {
+            Ok(o) => o,
+            Err(e) => {
+                ctx.count("scenario_unusable");
+                ctx.notes.push(format!("config could not be built: {e}"));
+                return false;
+            }
+        };
+        ctx.count("fair_lock_schedules");
+        ctx.add("fair_lock_waits", out.stats.fair_waits);
+        if !check_run(ctx, cfg, &mut out, "fair-lock") {
+            return false;
+        }
+    }
+    true
+}
+
 fn run_case(ctx: &mut Ctx, id: u64) {
     let t = ctx.tier;
     let mut r = ctx.case_rng(id);
     if id < N_DFS {
         let cfg = dfs_config(id);
         dfs_all(ctx, &cfg, t.pick(20_000, 300_000));
+        return;
+    }
+    if id < N_DFS + N_FAIR {
+        let k = id - N_DFS;
+        let cfg = if k < N_DFS { dfs_config(k) } else { fair_config(k - N_DFS) };
+        count_calls(ctx, &cfg);
+        ctx.count("fair_lock_configs");
+        fair_schedules(ctx, &cfg, &mut r, t.pick(40, 400));
         return;
     }
     // seeded-random configurations and schedules
@@ -785,7 +844,7 @@ fn run_case(ctx: &mut Ctx, id: u64) {
     let cfg = Config { replica, key_seed: r.next_u64(), prelude, replica_upgraded: 0, tasks };
     count_calls(ctx, &cfg);
     ctx.count("random_configs");
-    let nsched = if id < N_DFS + 8 { 200 } else { t.pick(12, 40) };
+    let nsched = if id < N_DFS + N_FAIR + 8 { 200 } else { t.pick(12, 40) };
     for k in 0..nsched {
         let mut ch = PctChooser::new(r.fork(k), ntasks, 3, 120);
         let mut out = match run_schedule(&cfg, &mut ch) {
@@ -799,6 +858,10 @@ fn run_case(ctx: &mut Ctx, id: u64) {
         if !check_run(ctx, &cfg, &mut out, "pct") {
             return;
         }
+    }
+    // every fourth configuration also runs a few schedules in fair-lock mode
+    if id % 4 == 1 && !fair_schedules(ctx, &cfg, &mut r, t.pick(3, 8)) {
+        return;
     }
     // every eighth configuration also runs under real OS threads (true parallelism, OS schedules)
     if id % 8 == 0 {
